@@ -142,7 +142,13 @@ def _judge(H, net):
         rev.add_node(v, **dict(d))
     for u, v, d in reversed(list(bip.edges(data=True))):
         rev.add_edge(u, v, **dict(d))
-    for view, obj in (("hypergraph", H), ("bipartite_str", bip), ("bipartite_int", hypergraph_to_bipartite(H, integer_ids=True)), ("bipartite_reversed_insertion", rev)):
+    Hiso = H.copy()  # the same reactions plus a registered species that occurs in none of them
+    Hiso.add_rxn({"Zz9": 1}, {"Zy9": 1}, edge_id="tmp_iso")
+    Hiso.remove_species("Zz9", prune_orphans=False)
+    Hiso.remove_rxn("tmp_iso")
+    want0 = want
+    for view, obj in (("hypergraph", H), ("bipartite_str", bip), ("bipartite_int", hypergraph_to_bipartite(H, integer_ids=True)), ("bipartite_reversed_insertion", rev), ("with_isolated_species", Hiso)):
+        want = dict(want0, n_species=want0["n_species"] + 1) if view == "with_isolated_species" and "Zz9" in Hiso.species and len(Hiso.edges) == len(H.edges) else want0
         an = DeficiencyAnalyzer(obj).compute_summary().compute_linkage_deficiencies()
         s = an.summary
         got = {k: getattr(s, k) for k in want}
@@ -171,10 +177,11 @@ def _judge(H, net):
                 fails.append(Fail("analyser_reuse", f"{view} {again}: {now}", f"{first} (the first answer of the same object)", key_extra=f"{view},{again}"))
                 break
         cxi = getattr(an, "_complexes", None)
-        if cxi is not None and set(map(tuple, cxi)) != cxs:
+        if cxi is not None and view != "with_isolated_species" and set(map(tuple, cxi)) != cxs:
             fails.append(Fail("complexes", f"{view}: {sorted(set(map(tuple, cxi)))}", str(sorted(cxs)), key_extra=view))
+    want = want0
     nt = want["n_linkage_classes"] > 1 or want["deficiency"] > 0 or not want["weakly_reversible"]
-    return Outcome(nontrivial=nt, outcome=f"c{want['n_complexes']}l{want['n_linkage_classes']}d{want['deficiency']}wr{int(want['weakly_reversible'])}", fails=fails, transitions=12)
+    return Outcome(nontrivial=nt, outcome=f"c{want['n_complexes']}l{want['n_linkage_classes']}d{want['deficiency']}wr{int(want['weakly_reversible'])}", fails=fails, transitions=15)
 
 
 def judge(H, net):
